@@ -44,7 +44,10 @@ def property_ids(goto, needle):
 
 def extract(goto, prop, unwind, timeout):
     t0 = time.time()
-    cmd = ['cbmc'] + CBMC_FLAGS + ['--unwind', str(unwind), goto, '--property', prop, '--trace', '--json-ui']
+    # no --slice-formula here: slicing drops the assignments of draws that do not
+    # influence the failed property from the trace, and the replay needs every draw
+    flags = [f for f in CBMC_FLAGS if f != '--slice-formula']
+    cmd = ['cbmc'] + flags + ['--unwind', str(unwind), goto, '--property', prop, '--trace', '--json-ui']
     try:
         r = subprocess.run(cmd, capture_output=True, text=True, timeout=timeout)
     except subprocess.TimeoutExpired:
